@@ -146,7 +146,10 @@ Proof. exact button_margins. Qed.
 Print Assumptions C14_button_margins.
 
 (* The model's observation of every Draw passes the decidable contract check [draw_ok] that
-   the differential run applies to the implementation's observations. *)
+   the differential run applies to the implementation's observations: a panic only where
+   documented; otherwise well-formed surfaces and EVERY widget of the returned tree within the
+   maximum it was given by its parent (the child of a Center / Button within the parent's
+   maximum and centred, every item of a Dynamic within Max.Width - colOffset). *)
 Theorem C14_draw_meets_contract : forall ws maxw maxh,
   0 <= maxw < 65536 -> 0 <= maxh < 65536 ->
   draw_ok ((ws, maxw, maxh), draw_run (ws, maxw, maxh)) = true.
@@ -192,9 +195,10 @@ Print Assumptions C14_history_size_within_max.
 
 (* Every step of every history (any length, any sequence of constraints — zero, tiny, repeated,
    unbounded —, any change of the fields between the steps, any initial scroll state) passes
-   the decidable contract check [draw_ok] (size within the maximum, well-formed tree, centred
-   child, panic only where documented) that the differential run applies to every step of the
-   implementation's histories. *)
+   the decidable contract check [draw_ok] (every widget of the tree within the maximum it was
+   given, well-formed surfaces, centred child, panic only where documented); this is the
+   violation predicate the differential run applies to every step of the implementation's
+   histories. *)
 Theorem C14_history_meets_contract : forall steps top, Forall in_u16 steps ->
   forallb draw_ok (combine steps (hist_run top steps)) = true.
 Proof. exact hist_run_contract. Qed.
@@ -209,9 +213,10 @@ Theorem C14_draw_function_of_fields_and_constraint : forall steps top,
 Proof. exact hist_stateless. Qed.
 Print Assumptions C14_draw_function_of_fields_and_constraint.
 
-(* For every widget tree (list.Dynamic included): as long as each step, taken alone on a fresh
-   value, leaves the scroll index at 0 ([step_anchored], decidable), every step of the history
-   returns what a fresh copy returns. *)
+(* list.Dynamic keeps a scroll position between draws by design (C19's subject), so its Draw is
+   a function of (fields, scroll state, constraint).  For every widget tree, Dynamic included:
+   as long as each step, taken alone on a fresh value, leaves the scroll index at 0
+   ([step_anchored], decidable), every step of the history returns what a fresh copy returns. *)
 Theorem C14_history_independent : forall steps,
   forallb step_anchored steps = true -> hist_run 0 steps = map draw_run steps.
 Proof. exact hist_independent. Qed.
@@ -224,20 +229,6 @@ Theorem C14_history_independent_fields : forall steps, Forall in_u16 steps ->
   hist_run 0 steps = map draw_run steps.
 Proof. exact hist_anchored_fields. Qed.
 Print Assumptions C14_history_independent_fields.
-
-(* The guard is needed (finding list-empty-first-item): a Dynamic whose first item has height 0
-   (an empty Text) with Gap 0 records top = 1 on its first Draw; the second Draw of the same
-   value returns 2 children where a fresh copy returns 3 (the first item is skipped from then
-   on, also after it gets content). *)
-Theorem C14_list_empty_first_item_refuted :
-  step_anchored (empty_first_list, 10, 4) = false /\
-  hist_tops 0 [(empty_first_list, 10, 4); (empty_first_list, 10, 4)] = [0; 1] /\
-  map (fun o : draw_obs => zlen (o_kids (snd o)))
-      (hist_run 0 [(empty_first_list, 10, 4); (empty_first_list, 10, 4)]) = [3; 2] /\
-  map (fun o : draw_obs => zlen (o_kids (snd o)))
-      (map draw_run [(empty_first_list, 10, 4); (empty_first_list, 10, 4)]) = [3; 3].
-Proof. exact list_history_dependent. Qed.
-Print Assumptions C14_list_empty_first_item_refuted.
 
 (* non-vacuity: a soft-wrapped text drawn with an ordinary, a zero and the same zero constraint
    (the scanner yields no line for width 0); a list with Gap 1 drawn three times *)
